@@ -231,6 +231,7 @@ func (e *Exec) topReturn(st *State, fr *Frame, res Val) {
 			}
 		}
 	}
+	e.applySets(st, c, ctx)
 	for _, q := range c.Ensures {
 		// each clause is proved on its own: proved clauses are not kept as
 		// assumptions (quantified lemmas make later queries unstable)
@@ -282,7 +283,7 @@ func (e *Exec) checkFrame(st *State, fr *Frame) {
 		return
 	}
 	for name, cur := range st.heaps {
-		if _, ok := declared[name]; ok || name == "*havoc*" {
+		if _, ok := declared[name]; ok || name == "*havoc*" || strings.HasPrefix(name, "G!") {
 			continue
 		}
 		old := fr.entry.heap(name, cur.S)
